@@ -19,6 +19,7 @@ as it does on the real tree.
   T10 flatten-else the inverse of T9
   T11 ifexp->stmt  `x = a if c else b` -> if/else statement
   T12 hoist-arg    first non-trivial argument of a statement-level call moved into a fresh local
+  T13 keywordise   positional arguments of calls to uniquely named package functions become keyword arguments
   T6 aug-extend    `xs.extend(ys)` statement -> `xs += ys` for a local list initialised with `[]` / a list display
 
 usage: selftest_auto.py [T0 T1 ...] [-p Cnn ...]
@@ -266,6 +267,52 @@ class HoistArg(ast.NodeTransformer):
         return node
 
 
+def keywordise(src_by_file: dict[str, str]) -> dict[str, str]:
+    """T13 (whole package): calls of package functions with a unique definition name get their positional arguments
+    spelled as keywords (`f(a, b)` -> `f(x=a, y=b)`), where the callee has no *args/positional-only parameters."""
+    trees = {f: ast.parse(s) for f, s in src_by_file.items()}
+    defs: dict[str, list] = {}
+    for t in trees.values():
+        for n in ast.walk(t):
+            if isinstance(n, (ast.FunctionDef, ast.AsyncFunctionDef)):
+                defs.setdefault(n.name, []).append(n)
+    unique = {k: v[0] for k, v in defs.items() if len(v) == 1 and not k.startswith("__")}
+    methods = set()
+    for t in trees.values():
+        for c in ast.walk(t):
+            if isinstance(c, ast.ClassDef):
+                for m in c.body:
+                    if isinstance(m, (ast.FunctionDef, ast.AsyncFunctionDef)):
+                        methods.add(id(m))
+    for t in trees.values():
+        for c in ast.walk(t):
+            if not isinstance(c, ast.Call) or not c.args or any(isinstance(a, ast.Starred) for a in c.args):
+                continue
+            # only calls whose callee is certain: plain names and self./cls. methods
+            if isinstance(c.func, ast.Name):
+                name = c.func.id
+            elif isinstance(c.func, ast.Attribute) and isinstance(c.func.value, ast.Name) and c.func.value.id in ("self", "cls"):
+                name = c.func.attr
+            else:
+                name = None
+            d = unique.get(name)
+            if d is None or d.args.vararg or d.args.posonlyargs or d.decorator_list and any(
+                    ast.unparse(x).split("(")[0].split(".")[-1] in ("command", "group", "option", "argument", "pass_obj", "pass_context", "property")
+                    for x in d.decorator_list):
+                continue
+            params = [p.arg for p in d.args.args]
+            if id(d) in methods:
+                if isinstance(c.func, ast.Name):
+                    continue
+                params = params[1:]
+            if len(c.args) > len(params) or any(k.arg in params[:len(c.args)] for k in c.keywords if k.arg):
+                continue
+            new_kw = [ast.keyword(arg=params[i], value=a) for i, a in enumerate(c.args)]
+            c.args = []
+            c.keywords = new_kw + c.keywords
+    return {f: ast.unparse(t) for f, t in trees.items()}
+
+
 def alpha_rename(src: str, filename: str) -> str:
     """Rename function-local variables consistently (suffix `_`): names bound in the function scope that are not
     parameters, not global/nonlocal, and not mentioned inside a nested def / lambda / class.  Uses inside
@@ -391,6 +438,19 @@ def build(name: str) -> Path:
     scratch = Path(tempfile.mkdtemp(prefix=f"verif-auto-{name}-"))
     shutil.copytree("/repo/src", scratch / "src", ignore=shutil.ignore_patterns("__pycache__", "locale", "*.mo"))
     changed = 0
+    if name == "T13":
+        files = sorted((scratch / "src" / "reuse").rglob("*.py"))
+        srcs = {str(f): f.read_text(encoding="utf-8") for f in files}
+        out = keywordise(srcs)
+        for f in files:
+            src = srcs[str(f)]
+            header = "".join(l for l in src.splitlines(keepends=True)[:6] if l.startswith("#"))
+            compile(out[str(f)], str(f), "exec")
+            if ast.dump(ast.parse(out[str(f)])) != ast.dump(ast.parse(src)):
+                changed += 1
+            f.write_text(header + out[str(f)] + "\n", encoding="utf-8")
+        print(f"[{name}] modules whose AST changed: {changed}", flush=True)
+        return scratch
     for path in sorted((scratch / "src" / "reuse").rglob("*.py")):
         src = path.read_text(encoding="utf-8")
         header = "".join(l for l in src.splitlines(keepends=True)[:6] if l.startswith("#"))
@@ -419,7 +479,7 @@ def main() -> int:
     ap.add_argument("-p", nargs="*", default=[])
     ap.add_argument("--keep", action="store_true")
     ns = ap.parse_args()
-    names = ns.transforms or ["T0", "T1", "T2", "T3", "T4", "T5", "T6", "T7", "T8", "T9", "T10", "T11", "T12"]
+    names = ns.transforms or ["T0", "T1", "T2", "T3", "T4", "T5", "T6", "T7", "T8", "T9", "T10", "T11", "T12", "T13"]
     props = ns.p or PROPS
     bad = 0
     for name in names:
